@@ -24,14 +24,15 @@ RULE = ("tables of 0-60 rows x 1-6 columns; header names needing CSV quoting (co
         "value) and int64; missing value in {absent, 0, -9999, only in other columns, everywhere}; Float / Integer / default type; blank "
         "lines; LF / CRLF; write cases with 1-4 results in any type order; distinct by (case kind, dtype request, missing class, ncols, "
         "has-blank-lines, eol, header class)")
-REQUIRED_COUNTERS = ["columns_read_and_compared", "mask_checks", "other_column_independence_checks", "error_line_checks", "files_written_and_parsed", "read_after_write_checks"]
+REQUIRED_COUNTERS = ["columns_read_and_compared", "mask_checks", "other_column_independence_checks", "error_line_checks", "files_written_and_parsed", "read_after_write_checks", "same_path_rereads"]
 ASSUMPTIONS = ["don't-care: textual form of missing cells in written files, fractional cells read as Integer, NaN/inf, ragged rows, rank != 1 on write",
                "integers are generated within +-2^53 (cells are parsed through float())"]
 
 DOUBLES = [0.0, -0.0, 1.0, -1.0, 0.1, 1 / 3.0, 5e-324, -5e-324, 2.2250738585072014e-308, 1.7976931348623157e+308, -1.7976931348623157e+308, 123456789.12345679,
            0.30000000000000004, 1e22, 1e-7, 9007199254740992.0, 9007199254740993.0, 3.141592653589793, 2.5, -9998.999999999998, -9999.000000000002, -9999.05,
            -9999.0000001, 1e-300, 3e-9, -3e-9, 1e-12, 99.00000000000001, 98.99999999999999]
-HEADERS = ["A", "B", "Elev", "my col", "a,b", 'say "hi"', "é_ü", " lead", "x:y", "#c", "日本", "Value (m)", "a;b", "'q'"]
+HEADERS = ["A", "B", "Elev", "my col", "a,b", 'say "hi"', "é_ü", " lead", "x:y", "#c", "日本", "Value (m)", "a;b", "'q'", "two\nlines", "twolines", "ff\x0cx", "ffx",
+           "ls\u2028sep", "nel\x85x"]
 
 
 def bits(x):
@@ -98,9 +99,11 @@ def write_csv(table, path, blank_positions=None, mutate_other=None, target=None)
     eol = table["eol"]
     lines = []
     out = []
-    w = csv.writer(_Collector(out), lineterminator="")
+    w = csv.writer(_Collector(out), lineterminator="\n")
     w.writerow([c["name"] for c in table["cols"]])
-    lines.append(out.pop())
+    lines.append("".join(out)[:-1])
+    del out[:]
+    extra = lines[0].count("\n")      # a quoted header may span several physical lines
     row_line = {}
     for r in range(table["nrows"]):
         if blank_positions and r in blank_positions:
@@ -112,7 +115,7 @@ def write_csv(table, path, blank_positions=None, mutate_other=None, target=None)
                 v = mutate_other(ci, r, v)
             cells.append(repr(int(v)) if c["integer"] else repr(float(v)))
         lines.append(",".join(cells))
-        row_line[r] = len(lines)
+        row_line[r] = len(lines) + extra
     if blank_positions and table["nrows"] in blank_positions:
         lines.append("")
     with open(path, "w", newline="", encoding="utf-8") as f:
@@ -193,7 +196,8 @@ def run_read(ctx, case):
     ctx.count("mask_checks")
     # independence from other columns: same target column, every other cell changed
     if len(t["cols"]) > 1:
-        path2 = os.path.join(d, "t2.csv")
+        # written to the *same path* (a new program of the same process must see the file as it is now)
+        path2 = path
         write_csv(t, path2, blanks, mutate_other=lambda ci, r, v: (missing if missing is not None and r % 2 == 0 else (v + 1 if abs(v) < 1e15 else 0)), target=case["target"])
         prog2 = arr.new_program(working_dir=d)
         out2 = _read(prog2, path2, "R", col["name"], dtype, missing)
@@ -201,6 +205,23 @@ def run_read(ctx, case):
         if not out2.ok or arr.digest(out2.value) != arr.digest(res):
             ctx.fail("read:other-columns-influence-result", {"second": arr.describe(out2.value) if out2.ok else out2.err, "first": arr.describe(res)})
             return
+    # the same path rewritten with different values in the target column itself: the next read must return the new values
+    if t["nrows"] and not integer_req:
+        import copy as _copy
+        t3 = _copy.deepcopy(t)
+        c3 = t3["cols"][case["target"]]
+        c3["data"] = [(v + 2 if abs(v) < 1e15 and (missing is None or v != missing) else v) for v in c3["data"]]
+        write_csv(t3, path, blanks)
+        out3 = _read(arr.new_program(working_dir=d), path, "R", col["name"], dtype, missing)
+        ctx.count("same_path_rereads")
+        if not out3.ok:
+            ctx.fail("read:reread-of-rewritten-file-raises-%s" % (out3.inner() or out3.err), {"error": str(out3.exc)[:200]})
+            return
+        got3 = numpy.ma.getdata(out3.value)
+        for r, v in enumerate(c3["data"]):
+            if (missing is None or float(v) != float(missing)) and bits(got3[r].item()) != bits(v):
+                ctx.fail("read:stale-data-after-file-changed", {"row": r, "got": repr(got3[r].item()), "file_now_holds": repr(float(v))})
+                return
     if len(ctx.samples) < 3 and t["nrows"] >= 2:
         ctx.sample({"header": col["name"], "dtype": dtype, "missing": missing, "cells": [repr(v) for v in col["data"][:5]], "result": arr.describe(res, 5), "blank_lines": sorted(blanks or [])})
 
@@ -230,6 +251,9 @@ def run_error(ctx, case):
     with open(path, encoding="utf-8", newline="") as f:
         lines = f.read().split(t["eol"])
     ln = row_line[bad_row]
+    if "\n" in col["name"] or any("\n" in c["name"] for c in t["cols"]):
+        ctx.dontcare("error-line case with a multi-line header (line arithmetic of the harness poisoner)")
+        return
     cells = lines[ln - 1].split(",")
     cells[target] = "" if case["fault"] == "empty-cell" and len(cells) > 1 else rng.choice(["abc", "1,5" if False else "x1", "NULL", "--", "1e", "12abc"])
     lines[ln - 1] = ",".join(cells)
